@@ -46,6 +46,10 @@ KTOK = {"l1": "l1", "l2": "l2", "ent": "ent", "sch": "sch", "cost": "cost", "max
 # ------------------------------------------------------------------------------------------------ helpers
 def rand_state(nprng, L, cap=4, real=False):
     dims = [1] + [min(cap, 2 ** min(k, L - k)) for k in range(1, L)] + [1]
+    if L >= 3 and nprng.random() < 0.25:
+        # a hand-made MPS with over-complete bonds (larger than the Schmidt rank allows): legal, normalize("B") keeps the left ones,
+        # and the diagnostics (max_bond, total_bond, runtime_cost) are those of the state as given
+        dims = [1] + [max(cap, 3)] * (L - 1) + [1]
     ts = []
     for i in range(L):
         t = nprng.normal(size=(2, dims[i], dims[i + 1]))
